@@ -355,7 +355,9 @@ def monitored_peak(ck, field, case, k_true):
         w = np.exp(-(0.5 * sig**-2) * (kk - q) ** 2)
         want = float(ss @ w / w.sum()) if w.sum() > 0 else 0.0
         got = float(sm(q))
-        if abs(got - want) > 1e-9 * max(1e-300, abs(want)) and abs(got - want) > 1e-15:
+        # (weights exp(-d^2 / 2 sigma^2) from the far tail, d / sigma ~ 30, amplify the rounding of d / sigma by ~ 2 d / sigma * |k| / sigma * 1e-16: two
+        # float evaluations of the same formula differ by up to ~1e-9 relative there - observed 1.6e-9 in the thorough tier; 1e-7 is the tolerance)
+        if abs(got - want) > 1e-7 * max(1e-300, abs(want)) and abs(got - want) > 1e-15:
             ck.mismatch("c17-smoother", f"SmoothData1D({q}) = {got}, Gaussian kernel regression gives {want}", case)
             break
     # (b) samples at the peak level: the shell of the plane wave, and the zero mode
